@@ -10,8 +10,14 @@ namespace Glom.C14
     the 'x'/'X' branch seeds `sofar` with the root, grows `nxt` while walking it, inserts the root in
     front, evaluates the remaining ops per child swallowing PathAccessError only, and breaks;
     `__stars__` counts both wildcards; `Path.from_text` maps `*` / `**`; `_apply_for_each` flattens
-    `layers - 1` times; and `_t_eval` dispatches 'x' / 'X' to that branch -/
+    `layers - 1` times; and `_t_eval` dispatches 'x' / 'X' to that branch; the remainder of the path
+    evaluated on every child is rooted at T for T-rooted **and for S-rooted** paths (it continues
+    from the child — rooted at S it would start again from the scope and ignore the child) -/
+def remainderAtT (root : String) : Bool :=
+  (Generated.c14RemainderRoot.find? (·.1 == root)).map (·.2) == some "T"
+
 def factsOK : Bool :=
+  remainderAtT "T" && remainderAtT "S" &&
   Generated.c14ExtendChildrenShape &&
   Generated.c14ExtendChildrenCaught ==
     [("keys_get", ["UnregisteredTarget"]), ("iterate_lookup", ["UnregisteredTarget"]),
